@@ -66,6 +66,14 @@ func (ex *Exec) specHere(pos token.Pos) *specCtx {
 	for k, v := range ex.paramVals {
 		sc.vars["old_"+k] = v
 	}
+	// indices of the range loops currently executing
+	for k := range ex.st.env {
+		if strings.HasPrefix(k, "$ri") {
+			if j := strings.Index(k, "."); j > 3 {
+				sc.stateVars["ri"+k[3:j]] = stateVar{k, typInt}
+			}
+		}
+	}
 	if ex.fc != nil && len(ex.code) <= 1 {
 		for _, gn := range ex.fc.GhostNames {
 			if v, ok := ex.paramVals[gn]; ok {
@@ -397,6 +405,10 @@ func (ex *Exec) specLoadVar(sc *specCtx, v *types.Var) (Val, bool) {
 		return Val{Select(ex.get(sc.st, ex.ptrHeapKey(v.Type())), ref), v.Type()}, true
 	}
 	t := sc.st.env[key]
+	if pv, ok := ex.paramObjs[v]; ok && t == nil && sc.root() != sc {
+		// old(...)/entry(...) of a parameter: its value at entry, whatever was assigned to it since
+		return pv, true
+	}
 	if t == nil && sc.root() != sc {
 		// old(...)/entry(...) of an expression naming a local that did not exist yet: the local's current value, the old heap
 		t = sc.root().st.env[key]
@@ -653,6 +665,15 @@ func (ex *Exec) specCall(sc *specCtx, e *ast.CallExpr) (Val, bool) {
 	case "bytesEq":
 		a := ex.specArgs(sc, e.Args)
 		return Val{bytesEq(a[0].T, a[1].T), typBool}, true
+	case "has":
+		a := ex.specArgs(sc, e.Args)
+		mt, ok := a[0].Typ.Underlying().(*types.Map)
+		if !ok {
+			ex.specErr(sc, "has: first argument is not a map")
+			return Val{True, typBool}, false
+		}
+		_, h := ex.mapGetIn(sc.st, a[0], mt, Val{a[1].T, mt.Key()})
+		return Val{h, typBool}, true
 	case "slicesEq":
 		a := ex.specArgs(sc, e.Args)
 		return Val{ex.slicesEqualTerm(a[0].T, a[1].T, elemTypeOf(a[0].Typ)), typBool}, true
